@@ -34,8 +34,8 @@ def shards(tier):
                                     continue
                                 if sync and state == "none":
                                     continue
-                            elif nf == 3 and (ack or (mode != "none" and to == "zero")):
-                                continue
+                            elif nf == 3 and (ack or sync or (mode != "none" and to == "zero")):
+                                continue   # three frames: without the version check (its branching x3 does not finish in the budget)
                             out.append({"nframes": nf, "mode": mode, "state": state, "sync": sync, "timeout": to, "ack": ack})
     for s1, s2 in (("all", "none"), ("all", "sub"), ("sub", "none"), ("none", "sub"), ("sub", "all")):
         for mode in (("none",) if tier == "quick" else ("none", "fin", "rst")):
